@@ -253,6 +253,10 @@ pub fn run(ctx: &mut Ctx) -> Report {
 			let der = k.serialize_der();
 			check_text(&mut s, "privateKey", "PRIVATE KEY", &der, &text);
 			s.rep.count(&format!("private_key_text:{}", origin.split(':').next().unwrap()));
+			// (every accessor of the document: the borrowing one hands out what the text wraps too)
+			if k.serialized_der() != &der[..] {
+				s.rep.violate("C14:private-key-text-is-the-der-accessor", "serialize_pem does not wrap what serialized_der() hands out", format!("key={} (private key withheld): serialize_der() has {} octets, serialized_der() {}", origin, der.len(), k.serialized_der().len()));
+			}
 			let model = s.drv.ask(&format!("key-text held {}", hex(&der)));
 			let real = list(&[tagged("ok", &[hex(&der)]), tagged("ok", &[hex(text.as_bytes())])]);
 			if real != model {
@@ -350,19 +354,25 @@ serialize_pem: {}", if d.is_ok() { "returned" } else { "panicked" }, match t { O
 		let cli = std::env::var("VERIF_CLI").unwrap_or_else(|_| format!("/verif/.cache/target-cli-{}/debug/rustls-cert-gen", if aws { "aws" } else { "ring" }));
 		if std::path::Path::new(&cli).exists() {
 			let runs: Vec<Vec<&str>> = vec![vec!["--ecdsa-p384", "--ed25519"], vec!["--ecdsa-p256"], vec!["--ed25519", "--ecdsa-p384", "--ecdsa-p256"], if aws { vec!["--rsa", "--ecdsa-p256"] } else { vec!["--ecdsa-p384", "--ecdsa-p256"] }];
+			// (base names: the defaults, and names with dots in them — a host name, two names that
+			// differ after their last dot only)
+			let names: Vec<(&str, &str)> = vec![("cert", "root-ca"), ("cert", "root-ca"), ("cert", "root-ca"), ("cert", "root-ca"), ("www.example.org", "authority.example"), ("site.leaf", "site.ca"), ("a.b.c", "a.b")];
+			let runs: Vec<Vec<&str>> = runs.into_iter().chain(vec![vec!["--ecdsa-p256"], vec!["--ed25519"], vec!["--ecdsa-p256", "--ed25519"]]).collect();
 			for (ri, seq) in runs.iter().enumerate() {
+				let (cert_name, ca_name) = names[ri.min(names.len() - 1)];
 				let dir = format!("/verif/.cache/c14_cli_{}_{}", std::process::id(), ri);
 				let _ = std::fs::remove_dir_all(&dir);
 				let _ = std::fs::create_dir_all(&dir);
 				for (step, flag) in seq.iter().enumerate() {
-					let out = std::process::Command::new(&cli).args(["-o", &dir, flag, "--san", "a-name-for-this-run.example.com"]).env("RUST_BACKTRACE", "0").output();
+					let out = std::process::Command::new(&cli).args(["-o", &dir, flag, "--san", "a-name-for-this-run.example.com", &format!("--cert-file-name={}", cert_name), &format!("--ca-file-name={}", ca_name)]).env("RUST_BACKTRACE", "0").output();
 					let ok = out.as_ref().map(|o| o.status.success()).unwrap_or(false);
 					s.rep.case(&format!("cli files run {} step {} {}", ri, step, flag), true);
 					if !ok {
 						s.rep.count("cli_run_failed");
 						continue;
 					}
-					for (file, kind, label) in [("cert.pem", "certificate", "CERTIFICATE"), ("cert.key.pem", "privateKey", "PRIVATE KEY"), ("root-ca.pem", "certificate", "CERTIFICATE"), ("root-ca.key.pem", "privateKey", "PRIVATE KEY")] {
+					for (file, kind, label) in [(format!("{}.pem", cert_name), "certificate", "CERTIFICATE"), (format!("{}.key.pem", cert_name), "privateKey", "PRIVATE KEY"), (format!("{}.pem", ca_name), "certificate", "CERTIFICATE"), (format!("{}.key.pem", ca_name), "privateKey", "PRIVATE KEY")] {
+						let file = file.as_str();
 						let Ok(text) = std::fs::read_to_string(format!("{}/{}", dir, file)) else {
 							s.rep.violate("C14:cli-file-missing", "a PEM file of the tool is missing or not text", format!("{} after {:?}", file, &seq[..=step]));
 							continue;
